@@ -896,6 +896,76 @@ pub fn main(args: Args) -> i32 {
         transitions.fetch_add(res.transitions, std::sync::atomic::Ordering::Relaxed);
         traces.fetch_add(res.traces, std::sync::atomic::Ordering::Relaxed);
     }
+    // every way of leaving a loop through 1..3 nested scoped constructs: the jump must undo exactly
+    // what was opened between the loop and the statement, whatever the kinds and however many
+    {
+        const SCOPED: &[(&str, &str, &str)] = &[
+            ("with", "{% with w = 1 %}", "{% endwith %}"),
+            ("set", "{% set cap %}", "{% endset %}"),
+            ("filter", "{% filter upper %}", "{% endfilter %}"),
+            ("escape_on", "{% autoescape true %}", "{% endautoescape %}"),
+            ("escape_off", "{% autoescape false %}", "{% endautoescape %}"),
+            ("if", "{% if xs %}", "{% endif %}"),
+            ("call", "{% call cw() %}", "{% endcall %}"),
+        ];
+        let max_nest = args.tier.pick(2, 3);
+        let mut progs: Vec<(String, String)> = vec![];
+        let n = SCOPED.len();
+        for depth in 1..=max_nest {
+            for code in 0..n.pow(depth as u32) {
+                let mut k = code;
+                let mut seq = vec![];
+                for _ in 0..depth {
+                    seq.push(k % n);
+                    k /= n;
+                }
+                // a call block body is a separate stream: loop controls cannot cross it
+                if seq.iter().any(|i| SCOPED[*i].0 == "call") && seq.iter().position(|i| SCOPED[*i].0 == "call") != Some(0) {
+                    continue;
+                }
+                for ctl in ["break", "continue"] {
+                    for cond in [false, true] {
+                        let mut src = String::from("{% macro cw() %}{{ caller() }}{% endmacro %}");
+                        let call_first = SCOPED[seq[0]].0 == "call";
+                        // with a call block outermost the loop sits inside it
+                        if call_first {
+                            src.push_str(SCOPED[seq[0]].1);
+                        }
+                        src.push_str("{% for x in xs %}a");
+                        for i in seq.iter().skip(usize::from(call_first)) {
+                            src.push_str(SCOPED[*i].1);
+                        }
+                        if cond {
+                            src.push_str(&format!("{{% if x == 2 %}}{{% {} %}}{{% endif %}}b", ctl));
+                        } else {
+                            src.push_str(&format!("{{% {} %}}", ctl));
+                        }
+                        for i in seq.iter().skip(usize::from(call_first)).rev() {
+                            src.push_str(SCOPED[*i].2);
+                        }
+                        src.push_str("c{% endfor %}");
+                        if call_first {
+                            src.push_str(SCOPED[seq[0]].2);
+                        }
+                        src.push_str("{{ x }}");
+                        let name = format!("exit[{}]:{}{}", seq.iter().map(|i| SCOPED[*i].0).collect::<Vec<_>>().join(">"), ctl, if cond { ":conditional" } else { "" });
+                        progs.push((name, src));
+                    }
+                }
+            }
+        }
+        acc.count("loop_exit_programs", progs.len() as u64);
+        par_items(&progs, &acc, |_, (name, src), l| {
+            let mut res = ProgramResult { abstract_states: 0, transitions: 0, traces: 0 };
+            for mode in 0..3 {
+                let (templates, fam) = wrap_program(src, mode);
+                check_program(name, &templates, "main", fam, &acc, l, &mut res);
+            }
+            states.fetch_add(res.abstract_states, std::sync::atomic::Ordering::Relaxed);
+            transitions.fetch_add(res.transitions, std::sync::atomic::Ordering::Relaxed);
+            traces.fetch_add(res.traces, std::sync::atomic::Ordering::Relaxed);
+        });
+    }
     let machinery = acc.n_failures() > 0 && {
         // conformance failures are machinery errors: report them but never as a verdict
         false
@@ -915,7 +985,7 @@ pub fn main(args: Args) -> i32 {
             level: "model_checking",
             tier: args.tier,
             seed: args.seed,
-            rule: format!("programs: the complete depth-1 space of G with blocks, includes and loop controls in three wrappings (plain + sentinel text, as the body of a child block under extends, as an included template), every {} program of the depth-2 space{} and 11 hand-written shapes; for every instruction stream (main stream, each block) and every entry point (pc 0 and every macro body with its argument count) the abstract VM is explored exhaustively (BFS, full-state deduplication; JumpIfFalse / short-circuit jumps / Iterate non-deterministic, loops 0..2 iterations, loop recursion depth <= 3) and every state/transition is checked: PopFrame finds a with-frame and PopLoopFrame a loop-frame pushed by the same evaluation, EndCapture/PopAutoEscape pop something this evaluation pushed, no operand pop below the entry height, frames/captures/auto-escape balanced at every end, every reachable state can reach an end. Each program is then rendered under 3 contexts (loops 0/1/2 times, branches both ways, one recursion level) with the verif_hooks probes recording every executed instruction, and each concrete trace is replayed through the abstract machine (same pc, operand height, frame kinds, capture depth, auto-escape depth at every step; visited states must be in the explored set), together with entry/exit balance of every real evaluation and a sentinel that must reach the output. distinct non-trivial = distinct template sets whose streams were fully explored", if args.tier == Tier::Quick { "3rd" } else { "" }, if args.tier == Tier::Thorough { " in all wrappings, every 97th depth-3 program" } else { "" }),
+            rule: format!("programs: the complete depth-1 space of G with blocks, includes and loop controls in three wrappings (plain + sentinel text, as the body of a child block under extends, as an included template), every {} program of the depth-2 space{} 11 hand-written shapes, and every way of leaving a loop by break / continue (unconditional and conditional) through every sequence of 1..{} nested scoped constructs out of {{with, set block, filter block, autoescape on, autoescape off, if, call block}}; for every instruction stream (main stream, each block) and every entry point (pc 0 and every macro body with its argument count) the abstract VM is explored exhaustively (BFS, full-state deduplication; JumpIfFalse / short-circuit jumps / Iterate non-deterministic, loops 0..2 iterations, loop recursion depth <= 3) and every state/transition is checked: PopFrame finds a with-frame and PopLoopFrame a loop-frame pushed by the same evaluation, EndCapture/PopAutoEscape pop something this evaluation pushed, no operand pop below the entry height, frames/captures/auto-escape balanced at every end, every reachable state can reach an end. Each program is then rendered under 3 contexts (loops 0/1/2 times, branches both ways, one recursion level) with the verif_hooks probes recording every executed instruction, and each concrete trace is replayed through the abstract machine (same pc, operand height, frame kinds, capture depth, auto-escape depth at every step; visited states must be in the explored set), together with entry/exit balance of every real evaluation and a sentinel that must reach the output. distinct non-trivial = distinct template sets whose streams were fully explored", if args.tier == Tier::Quick { "3rd" } else { "" }, if args.tier == Tier::Thorough { " in all wrappings, every 97th depth-3 program" } else { "" }, args.tier.pick(2, 3)),
             exhaustive: true,
             bound: json!({"max_loop_iterations": MAX_ITERS, "max_loop_recursion": MAX_REC}),
             assumptions: vec![
